@@ -3,6 +3,7 @@ CONSTANTS
   NoCode = {9}
   Places <- cPlaces
   FirstPlace <- cFirst
+  AltFirst <- cAltFirst
   CondLines = {3}
   FnPlaces <- cFnPlaces
   InsnOk = {50}
@@ -21,6 +22,6 @@ CONSTANTS
   HwDelivers = FALSE
   MaxReq = 6
   Alphabet = "small"
-  Cfgs = {"asw", "kindless", "all", "rfilter", "bareident", "insnchk"}
+  Cfgs = {"asw", "asw_b", "kindless", "all", "all_b", "rfilter", "bareident", "insnchk"}
   Emit = TRUE
   TwoPhase = TRUE
